@@ -144,6 +144,17 @@ CHECKS = {
              "compared with each other, with the model's aliases and with the identifier grammars.",
         design="4/C09", technique="Lean 4 proof (list maps, identifier characterisation) + cross-artefact differential check",
         note="F9 (H2*, c-C3H2, l-C3H give illegal identifiers) is a known finding; ident_legal_iff names the excluded class."),
+    "C16": dict(
+        text="Theorems renorm_restores / renorm_ratio (over any field, any finite species and element sets, any composition "
+             "matrix, masses with A_s != 0, any abundance vector and H != 0: if r solves the generated system M r = b then the "
+             "renormalised total of every element is H*b_i, hence the ratio to hydrogen is the stored reference ratio), "
+             "identity_factor + ones_solves (identity when the ratios already match and all elements are atomic), "
+             "electron_untouched. Tie: naunet_renorm.cpp of three back-ends parsed into exact rational expressions, compared with "
+             "the model fed by naunet's own counts and mass numbers; oracle solves the parsed system exactly (Fractions) on "
+             "random positive vectors and recomputes element totals from the generator's ground truth.",
+        design="4/C16", technique="Lean 4 proof (Finset sum exchange + field_simp) + exact rational evaluation of the emitted code",
+        note="Hypothesis A_s != 0 excludes grain species (mass number 0): known finding F11. IEEE evaluation and the dense solver "
+             "are not modelled; 'finite' is implied by exact solvability of the non-singular system."),
 }
 
 NOT_YET = {}
